@@ -273,7 +273,7 @@ func runC16(w *mon.W) {
 	rec(nil, 0)
 	w.SetExhaustive(true)
 	// sampled part: longer lists, random names, deeper directories
-	n := w.Scale(40000, 4000000)
+	n := w.Scale(40000, 30000000)
 	deepDirs := append([]string{}, dirs...)
 	deepDirs = append(deepDirs, "/x/y/z/w/v", "/..a/...", "/a/b/c/d/e/f/g/h/i/j/k/l/m/n/o/p/q")
 	for i := 0; i < n; i++ {
